@@ -95,20 +95,26 @@ CLAIMED.update({
             NOTE + "Python object identity is modelled by row ids; dict/set order by insertion-ordered lists.",
             "Coq proof (pipeline invariant, ~4000 lines) + in-Coq correspondence of the whole pipeline + coverage oracle",
             "DESIGN.md 6/C01, 13"),
-    "C02": ("PARTIAL proof. Proved end to end through remap_to_input (C02_two_piece_cut): for every texel size, every scaffold "
-            "pr ++ [f] ++ po of distinct well-formed contigs, f on either strand, every cut coordinate k leaving both pieces of "
-            "f at least 3 error lengths long, every orientation of the two Pretext scaffolds and every rounding of the scaffold "
-            "end by < 1 texel: exactly one cut, nothing left over, results = oriented pr ++ [left piece] and [right piece] ++ po "
-            "with f split exactly at k (the margin is shown sharp by computed examples). The full statement (affine core map "
-            "within 3 error lengths, orientation, Pretext order, several cuts and regrouping, completion on every "
-            "PretextView-model script) is decided on each run by an oracle over generated edit scripts "
-            "(cut sets on the texel grid, pieces >= 2 texels, any permutation/orientation/grouping, floor/ceil texel counts, "
-            "sub-texel scaffolds, texel from 1 bp, forward and reverse contigs) and by the correspondence of the pipeline "
-            "model; Coq theorems cover the ingredients (C12 lookup = brute force, C18 trim/discard invariant incl. strand-aware "
-            "trim_fragment, C01 conservation, the refutation of the pinned commit's keep-flag order for reverse-strand contigs, "
-            "repaired by a fix: commit). The global composition over arbitrary edit scripts is not proved. " + PIPE,
+    "C02": ("Coq theorems about the remapping stage (remap_to_input), no size bound, for EVERY PretextView-model edit script and more: "
+            "(1) C02_completion: for every map that tiles every scaffold it shows (ascending baits cover 1..E without hole or overlap, "
+            "pieces >= 2 texels when a scaffold is shown in more than one piece, any order / orientation / grouping, any subset of "
+            "scaffolds absent, texel >= 1 bp, untagged baits, well-formed untagged input) remapping returns Ok -- no lookup fails, "
+            "the resolver loop ends, every shared contig is cut into abutting pieces that pass the QC; the hypothesis 'input contigs "
+            "untagged' was forced by the proof and the statement without it is refuted in Coq and reproduced on /repo (edge "
+            "behaviour, DESIGN 13.5). (2) C02_core_kept: for every map with pairwise disjoint baits and every configuration, if "
+            "remapping completes then the result of each piece is ONE contiguous collinear run of its source scaffold's rows with "
+            "the input's internal gaps (C18 invariant) that still holds every contig base lying >= 3 error lengths inside the "
+            "piece; a piece without result has no such base. (3) C02_deep_cut_exact: two abutting pieces and a contig overlapping "
+            "each in >= 3 error lengths: the contig is split exactly at the Pretext coordinate (C02_two_piece_cut gives the "
+            "complete output for the one-cut script, with the margin shown sharp). Orientation = input x piece: to_scaffold_rows "
+            "(C14). NOT proved: the Pretext-order clause for pieces sharing a destination and everything after remap_to_input for "
+            "this property (fusion / naming keep rows: C07/C01 theorems) as one composed statement; the generator's reading of "
+            "PretextView (texel grid, floor coordinates) is an assumption. On every run the oracle judges the full statement on "
+            "generated edit scripts (cut sets on the texel grid, pieces >= 2 texels, any permutation/orientation/grouping, "
+            "floor/ceil texel counts, sub-texel scaffolds, texel from 1 bp, both strands, boundary sweeps around 1, 2, 3 error "
+            "lengths). " + PIPE,
             NOTE + "The PretextView model (texel grid, floor coordinates) is the generator's reading of PretextView.",
-            "Coq proof of the one-cut script end to end + lemmas for the ingredients (partial) + in-Coq correspondence of the pipeline + affine-core oracle",
+            "Coq proof (completion on tiling maps, core retention on disjoint maps, exact deep cuts: ~7000 lines over the pipeline stages) + in-Coq correspondence of the pipeline + affine-core oracle",
             "DESIGN.md 6/C02, 13"),
     "C03": ("Coq theorems, unbounded: for every file/index through which the named records can be read (good_access, proved for "
             "every well-formed rendered FASTA in C04), every buffer >= 1 and line length >= 1, write_scaffold = '>'name LF + "
